@@ -558,6 +558,11 @@ Proof.
   lia.
 Qed.
 
+Lemma pi_gsrc : forall t i, pi t i = true -> gsrc t i = true.
+Proof. destruct i; simpl; intros; auto; discriminate. Qed.
+Lemma ps_gsrc : forall t i, ps t i = true -> gsrc t i = true.
+Proof. destruct i; simpl; intros; auto; discriminate. Qed.
+
 Lemma CBp_ext : forall st st' thr, trigs st' = trigs st -> log st' = log st -> ntrig st' = ntrig st ->
   (forall t, registered st' t <-> registered st t) -> CBp st thr -> CBp st' thr.
 Proof.
@@ -612,12 +617,12 @@ Section C13Thr.
            eapply (CBp_removal S (st_log S (if mem s (allsubs S) then [GLeft s] else [])));
            [exact HC|eapply RM_remove_locked; [eapply RG_ext; [|exact HR]; reg_eq_tac|exact E]|reflexivity|reflexivity|reflexivity
            |eexists; split; [reflexivity|destruct (mem s (allsubs S)); reflexivity]
-           |apply plain_dec|intros p; rewrite (HQ p); simpl; lia|reflexivity|reflexivity|reflexivity|reflexivity|reflexivity|discriminate]
+           |apply plain_dec|intros p; rewrite (HQ p); simpl; first [reflexivity|lia]|reflexivity|reflexivity|reflexivity|reflexivity|reflexivity|discriminate]
          | HC : CB ?S, HR : RG ?S, E : remove_many (st_log ?S (map GLeft (of_conn ?S ?c _))) _ = (?st0, ?r) |- _ =>
            eapply (CBp_removal S (st_log S (map GLeft (of_conn S c (allsubs S)))));
            [exact HC|eapply RM_remove_many; [eapply RG_ext; [|exact HR]; reg_eq_tac|exact E]|reflexivity|reflexivity|reflexivity
            |eexists; split; [reflexivity|apply plain_map; auto]
-           |apply plain_dec|intros p; rewrite (HQ p); simpl; lia|reflexivity|reflexivity|reflexivity|reflexivity|reflexivity|discriminate]
+           |apply plain_dec|intros p; rewrite (HQ p); simpl; first [reflexivity|lia]|reflexivity|reflexivity|reflexivity|reflexivity|reflexivity|discriminate]
          | HC : CB ?S, HR : RG ?S, E : detach_many (st_flags ?S true _) _ = (?st0, ?r) |- _ =>
            let E1 := fresh "E1" in let E2 := fresh "E2" in
            destruct (shutdown_empty _ _ _ _ HR E) as [E1 E2];
@@ -625,21 +630,24 @@ Section C13Thr.
            eapply (CBp_removal S (st_flags S true (rctx S)));
            [exact HC| |reflexivity|reflexivity|reflexivity
            |exists []; split; reflexivity
-           |apply plain_dec|intros p; rewrite (HQ p); simpl; lia|reflexivity|reflexivity|reflexivity|reflexivity|reflexivity|discriminate];
+           |apply plain_dec|intros p; rewrite (HQ p); simpl; first [reflexivity|lia]|reflexivity|reflexivity|reflexivity|reflexivity|reflexivity|discriminate];
            eapply RM_detach_many; [eapply RG_ext; [|exact HR]; reg_eq_tac| | |exact E]; simpl; auto;
            apply (NoDup_tids (fun t => t_key (trigs S t))); [apply (rg_keys _ HR)|]; intros k t Hi; apply (rg_ent _ HR _ _ Hi)
+         | HC : CB ?S, HR : RG ?S, E : detach_locked ?S ?t0 = (?st0, ?r), Ec : _ = Some ?t0 |- _ =>
+           rewrite Hfc in Ec;
+           match type of Ec with (if is_reg S ?t then _ else _) = _ =>
+             let Er := fresh "Er" in destruct (is_reg S t) eqn:Er; inversion Ec; subst;
+             assert (Hreg0 : In (t_key (trigs S t0), t0) (reg S)) by (apply is_reg_true; auto);
+             pose proof (detach_locked_spec _ _ _ _ HR Hreg0 E) as Hsp; simpl in Hsp; destruct Hsp as (Hrr & _);
+             pose proof (RM_detach_locked _ _ _ _ HR Hreg0 E) as HM;
+             eapply (CBp_removal S S);
+             [exact HC|exact HM|reflexivity|reflexivity|reflexivity
+             |exists []; split; reflexivity
+             |apply plain_dec|intros p; rewrite (HQ p); simpl; first [reflexivity|lia]|reflexivity|reflexivity|reflexivity|reflexivity|reflexivity|];
+             intros t' Ht'; simpl in Ht'; apply Nat.eqb_eq in Ht'; subst t';
+             rewrite (registered_RM _ _ _ t0 HM), Hrr; simpl; tauto
+           end
          end; fail).
-    all: lazymatch goal with
-         | HC : CB ?S, HR : RG ?S, E : detach_many (st_flags ?S true _) _ = (?st0, ?r) |- _ =>
-           let E1 := fresh "E1" in let E2 := fresh "E2" in
-           destruct (shutdown_empty _ _ _ _ HR E) as [E1 E2];
-           eapply (CBp_ext (emit st0 (dec_obs r))); [reflexivity|reflexivity|reflexivity|intros t; unfold registered; simpl; rewrite E1; tauto|];
-           eapply (CBp_removal S (st_flags S true (rctx S)));
-           [exact HC| |reflexivity|reflexivity|reflexivity
-           |exists []; split; reflexivity
-           |apply plain_dec|intros p; rewrite (HQ p); simpl; lia|reflexivity|reflexivity|reflexivity|reflexivity|reflexivity|discriminate]
-         | _ => idtac
-         end.
     all: unfold CBp.
     all: repeat match goal with |- _ /\ _ => split end.
     all: try (solve [intros t0; hq HQ (pi t0); pose proof (cb_pi _ HC t0); unfold B in *; simpl; unfold upd; eqb_all; lia]).
@@ -650,14 +658,32 @@ Section C13Thr.
     all: try (solve [intros t0 Ht0; hq HQ (is_cancel t0); destruct (cb_cancel _ HC t0 Ht0) as [F|[F|F]]; unfold registered in *; simpl; unfold upd; eqb_all; auto; right; right; lia]).
     all: try (solve [intros t0 Ht0; simpl in Ht0; repeat (destruct Ht0 as [Hd|Ht0]; [discriminate Hd|]);
         hq HQ (is_doner t0); destruct (cb_end _ HC t0 Ht0) as [F1 [F|F]]; unfold registered in *; simpl; unfold upd; eqb_all; split; auto; right; lia ]).
+    (* addSubscription joining an existing trigger: the hook runner mentions a registered instance *)
+    1-2: (apply lookup_reg_In in Ec1; destruct (rg_ent _ HR _ _ Ec1) as (Htn & _);
+          intros t0 Ht0; hq HQ (gsrc t0); destruct (cb_fresh _ HC t0 Ht0) as (F1 & F2 & F3); simpl in *; unfold upd; eqb_all;
+          repeat split; auto; try lia).
+    (* addSubscription creating trigger instance ntrig *)
+    1-12: (destruct (cb_fresh _ HC (ntrig st) (le_n _)) as (Fg & Fi & Fs);
+           assert (Fpi : cnt (pi (ntrig st)) (threads st) = 0)
+             by (pose proof (cnt_le (pi (ntrig st)) (gsrc (ntrig st)) (threads st) (pi_gsrc _)); lia);
+           assert (Fps : cnt (ps (ntrig st)) (threads st) = 0)
+             by (pose proof (cnt_le (ps (ntrig st)) (gsrc (ntrig st)) (threads st) (ps_gsrc _)); lia)).
+    1,7: (intros t0; hq HQ (pi t0); pose proof (cb_pi _ HC t0); unfold B in *; simpl; unfold upd; eqb_all; lia).
+    1,6: (intros t0; hq HQ (ps t0); pose proof (cb_ps _ HC t0); simpl; unfold upd; eqb_all; lia).
+    1,5: (intros t0; pose proof (cb_nstart _ HC t0); unfold nstart in *; simpl; unfold upd; eqb_all; auto; lia).
+    1,4: (intros t0 Ht0; simpl in Ht0; hq HQ (gsrc t0); destruct (cb_fresh _ HC t0 ltac:(lia)) as (F1 & F2 & F3); simpl in *; unfold upd; eqb_all;
+          repeat split; auto; try lia).
+    1,3: (intros t0 Ht0; simpl in Ht0; hq HQ (is_cancel t0); unfold registered; simpl; unfold upd; destruct (Nat.eqb_spec t0 (ntrig st)) as [->|Hne];
+          [left; simpl; apply in_or_app; right; left; reflexivity
+          |destruct (cb_cancel _ HC t0 ltac:(lia)) as [F|[F|F]]; [left; apply in_or_app; left; exact F|auto|right; right; lia]]).
+    1,2: (intros t0 Ht0; simpl in Ht0; destruct Ht0 as [Hd|[Hd|Ht0]]; try discriminate;
+          hq HQ (is_doner t0); destruct (cb_end _ HC t0 Ht0) as [F1 F]; split; [simpl; lia|];
+          destruct F as [F|F]; [left|right; lia];
+          unfold registered in *; simpl; unfold upd; destruct (Nat.eqb_spec t0 (ntrig st)); [lia|];
+          intro Hx; apply in_app_iff in Hx; destruct Hx as [Hx|[Hx|[]]]; [tauto|inversion Hx; lia]).
     all: match goal with HI : forall p, p ?i = true -> _ |- ?g =>
            match g with
-           | forall t, cnt (pi t) _ + _ <= 1 => idtac i "pi"
-           | forall t, cnt (ps t) _ + _ <= 1 => idtac i "ps"
            | forall t, nstart t _ = _ => idtac i "nstart"
-           | forall t, _ <= t -> _ => idtac i "fresh"
-           | cnt is_initold _ = 0 => idtac i "old"
-           | forall t, t < _ -> _ => idtac i "cancel"
            | forall t, In _ _ -> _ => idtac i "end"
            | _ => idtac i "other"
            end end.
